@@ -146,6 +146,9 @@ def str_method(eng, base, attr, node):
             if not eng_.feasible(z3.Length(s) != 1):
                 return Sym(z3.InRe(s, z3.Range(lo, hi)), BOOL)
             raise Unsupported('str.%s on a symbolic string of unknown length' % attr)
+        if attr in ('upper', 'lower') and not args:
+            # uninterpreted: the same string gives the same result (enough when code and specification both apply it)
+            return Sym(_CASEFN[attr](s), STR)
         if attr == 'format':
             raise Unsupported('str.format on symbolic')
         raise Unsupported('str.%s on symbolic string' % attr)
@@ -153,6 +156,8 @@ def str_method(eng, base, attr, node):
     return BoundMethod(attr, native)
 
 
+_CASEFN = {'upper': z3.Function('str_upper', z3.StringSort(), z3.StringSort()),
+           'lower': z3.Function('str_lower', z3.StringSort(), z3.StringSort())}
 NSPLIT = z3.Function('nsplit', z3.StringSort(), z3.StringSort(), z3.IntSort())
 
 
